@@ -82,7 +82,9 @@ def build_table(filler):
         else:
             raise ValueError(filler)
     except PyRaise as e:
-        raise TableError("filler %s raises %r %r" % (filler, e.exc, e.exc.o.args))
+        err = TableError("filler %s raises %s%r" % (filler, e.exc.o.clsname(), tuple(e.exc.o.args)))
+        err.raised = e.exc.o.clsname()
+        raise err
     if P.decisions:
         raise TableError("filler %s is not straight-line over constants (%d data-dependent forks)" % (filler, len(P.decisions)))
     T = Table()
@@ -172,7 +174,12 @@ _tables = {}
 
 def get_table(filler):
     if filler not in _tables:
-        _tables[filler] = build_table(filler)
+        try:
+            _tables[filler] = build_table(filler)
+        except TableError as e:
+            _tables[filler] = e
+    if isinstance(_tables[filler], TableError):
+        raise _tables[filler]
     return _tables[filler]
 
 
